@@ -116,9 +116,11 @@ def main_call_order(path):
     return m.group(1), re.findall(r"^\s*(\w+)\(&mut env\);\s*$", m.group(2), re.M)
 
 
-def translate_fn(fn, relmap, tymap, sig):
+def translate_fn(fn, relmap, tymap, sig, var=None):
+    """var: the variable numbering shared by the rule functions of one rule module (the flat variable names of the comments
+    are those of the whole rule group), so that the sub-rules of a family are literally aged copies of one source rule."""
     kinds = ram.atom_kinds(fn)
-    var = {}
+    var = {} if var is None else var
 
     def v(x):
         return var.setdefault(x, len(var))
@@ -172,6 +174,85 @@ def translate_fn(fn, relmap, tymap, sig):
     return {"name": fn["name"], "group": fn["group"], "prem": prem, "conc": conc, "nvars": len(var)}
 
 
+def families_of(rules, sig):
+    """Groups the translated sub-rules into families and recovers one SOURCE flat rule per family by erasing ages.
+    Family of `<group>_<stage>_<i>`: `<group>_<stage>`; the atom that is [new] in sub-rule i is source atom i
+    (to_semi_naive: before i all, i new, after i old).  `functionality_<id>` in group functionality_<f>: the implicit rule
+    func_rule f n.  An atom-less rule is its own family.
+    -> [{"name", "kind": "func"|"family"|"empty", "members": [index into rules], "src": {"prem": [(kind, id, args)], "conc"} |
+        ("func", f, nargs), "problems": [..]}]"""
+    fams, by_name = [], {}
+    for idx, ru in enumerate(rules):
+        n, g = ru["name"], ru["group"]
+        if re.match(r"^functionality_\d+$", n) and g.startswith("functionality_"):
+            key, kind, pos = n, "func", 0
+        elif not ru["prem"]:
+            key, kind, pos = n, "empty", 0
+        else:
+            m = re.match(r"^%s_(\d+)_(\d+)$" % re.escape(g), n)
+            if not m:
+                raise FprogError("rule %s does not have the form %s_<stage>_<subrule>" % (n, g))
+            key, kind, pos = "%s_%s" % (g, m.group(1)), "family", int(m.group(2))
+        if key not in by_name:
+            by_name[key] = {"name": key, "kind": kind, "members": [], "pos": [], "problems": []}
+            fams.append(by_name[key])
+        f = by_name[key]
+        if f["kind"] != kind:
+            raise FprogError("family %s mixes kinds" % key)
+        f["members"].append(idx)
+        f["pos"].append(pos)
+    for f in fams:
+        mem = [rules[i] for i in f["members"]]
+        if f["kind"] == "func":
+            ru = mem[0]
+            a = ru["prem"][0]
+            f["src"] = ("func", a[1], len(a[2]) - 1)
+            if len(mem) != 1:
+                f["problems"].append("%d functionality sub-rules" % len(mem))
+            continue
+        if f["kind"] == "empty":
+            f["src"] = {"prem": [], "conc": mem[0]["conc"]}
+            continue
+        order = sorted(range(len(mem)), key=lambda k: f["pos"][k])
+        if [f["pos"][k] for k in order] != list(range(len(mem))):
+            f["problems"].append("sub-rule indices %s are not 0..%d" % (sorted(f["pos"]), len(mem) - 1))
+        prem = []
+        for k in order:
+            news = [a for a in mem[k]["prem"] if a[3] == "new"]
+            if len(news) != 1:
+                f["problems"].append("sub-rule %s has %d [new] atoms" % (mem[k]["name"], len(news)))
+                prem = None
+                break
+            prem.append(news[0][:3])
+        if prem is None or len(prem) != len(mem[order[0]]["prem"]):
+            if prem is not None:
+                f["problems"].append("%d sub-rules for %d premise atoms" % (len(mem), len(mem[order[0]]["prem"])))
+            prem = [a[:3] for a in mem[order[0]]["prem"]]
+        f["src"] = {"prem": prem, "conc": mem[order[0]]["conc"]}
+    return fams
+
+
+def family_rows(fam, rules):
+    """For the labelling search of translate/flat.py: per sub-rule [(source atom id, age code)], or None when the atoms of a
+    sub-rule cannot be aligned with the source atoms one to one (identical atoms, foreign atoms)."""
+    if fam["kind"] != "family":
+        return None
+    src = fam["src"]["prem"]
+    if len(set((a[0], a[1], tuple(a[2])) for a in src)) != len(src):
+        return None
+    ident = {(a[0], a[1], tuple(a[2])): i for i, a in enumerate(src)}
+    rows = []
+    for i in fam["members"]:
+        row = []
+        for a in rules[i]["prem"]:
+            k = (a[0], a[1], tuple(a[2]))
+            if k not in ident:
+                return None
+            row.append((ident[k], {"new": 0, "old": 1, "all": 2}[a[3]]))
+        rows.append(row)
+    return rows
+
+
 def translate(comp_dir, module_text, sig):
     relmap, tymap = name_maps(sig)
     files = ram.component_files(comp_dir)
@@ -202,15 +283,16 @@ def translate(comp_dir, module_text, sig):
         raise FprogError("close_until calls %s, the component directory holds %s" % (sorted(s for _, s in order), sorted(by_symbol)))
     rules = []
     for (_, symbol) in order:
+        var = {}
         for fn in by_symbol[symbol]:
-            rules.append(translate_fn(fn, relmap, tymap, sig))
+            rules.append(translate_fn(fn, relmap, tymap, sig, var))
     arity = [(i, len(r["cols"]), bool(r["func"])) for i, r in enumerate(sig["rels"])]
     restype = [(i, r["cols"][-1]) for i, r in enumerate(sig["rels"]) if r["func"]]
     ages = {"new": 0, "old": 0, "all": 0}
     for ru in rules:
         for a in ru["prem"]:
             ages[a[3]] += 1
-    return {"rules": rules, "arity": arity, "restype": restype, "weights": weights_of(module_text, relmap),
+    return {"rules": rules, "families": families_of(rules, sig), "arity": arity, "restype": restype, "weights": weights_of(module_text, relmap),
             "order": [c for (c, _) in order], "problems": problems,
             "stats": {"modules": len(order), "subrules": len(rules), "atoms": ages,
                       "diag_atoms": ndiag,
@@ -260,6 +342,17 @@ def fprogram_coq(fp):
     ar = "; ".join("(%d, %d, %s)" % (i, n, "true" if f else "false") for (i, n, f) in fp["arity"])
     rt = "; ".join("(%d, %d)" % p for p in fp["restype"])
     return "{| fp_arity := [%s]; fp_restype := [%s]; fp_rules := [%s] |}" % (ar, rt, ";\n  ".join(rule_coq(r) for r in fp["rules"]))
+
+
+def src_coq(fp):
+    """Gallina `list frule`: the source flat rules recovered from the families (functionality rules as `func_rule f n`)."""
+    out = []
+    for f in fp["families"]:
+        if f["kind"] == "func":
+            out.append("func_rule %d %d%%nat" % (f["src"][1], f["src"][2]))
+        else:
+            out.append(rule_coq({"prem": [a + ("all",) for a in f["src"]["prem"]], "conc": f["src"]["conc"]}))
+    return "[" + ";\n  ".join(out) + "]"
 
 
 def weights_coq(fp):
